@@ -32,8 +32,8 @@ Inductive sdesc : Set :=
 | SNone.                        (* NewSchema(notation) for any / empty *)
 
 Record body_ : Set := { b_format : bytes; b_schema : sdesc }.
-Record response : Set := { r_code : bytes; r_annot : bytes; r_body : option body_; r_headers : option sdesc }.
-Record request : Set := { q_body : option body_; q_headers : option sdesc }.
+Record response : Set := { r_code : bytes; r_annot : bytes; r_body : option body_; r_headers : option sdesc; r_dir : directive }.
+Record request : Set := { q_body : option body_; q_headers : option sdesc; q_dir : directive }.
 Record query : Set := { qu_format : bytes; qu_example : bytes; qu_schema : sdesc }.
 
 Record http_i : Set := {
@@ -288,7 +288,7 @@ Section Build.
                     then upd_http c i (fun h => match hi_request h with
                                                 | Some _ => h
                                                 | None => {| hi_annot := hi_annot h; hi_desc := hi_desc h; hi_tags := hi_tags h; hi_query := hi_query h;
-                                                             hi_request := Some {| q_body := None; q_headers := None |};
+                                                             hi_request := Some {| q_body := None; q_headers := None; q_dir := d |};
                                                              hi_responses := hi_responses h; hi_pathvars := hi_pathvars h |}
                                                 end)
                     else c in
@@ -305,7 +305,7 @@ Section Build.
                   | None =>
                     COk (with_cat b (upd_http c1 i (fun h =>
                       {| hi_annot := hi_annot h; hi_desc := hi_desc h; hi_tags := hi_tags h; hi_query := hi_query h;
-                         hi_request := Some {| q_body := Some {| b_format := format_of n; b_schema := s |}; q_headers := q_headers rq |};
+                         hi_request := Some {| q_body := Some {| b_format := format_of n; b_schema := s |}; q_headers := q_headers rq; q_dir := q_dir rq |};
                          hi_responses := hi_responses h; hi_pathvars := hi_pathvars h |})))
                   end
                 end
@@ -338,7 +338,7 @@ Section Build.
               | IdErr cls => kerr d cls
               | IdOk i => COk (upd_http c i (fun h =>
                   {| hi_annot := hi_annot h; hi_desc := hi_desc h; hi_tags := hi_tags h; hi_query := hi_query h; hi_request := hi_request h;
-                     hi_responses := hi_responses h ++ [{| r_code := d_keyword d; r_annot := d_annot d; r_body := None; r_headers := None |}];
+                     hi_responses := hi_responses h ++ [{| r_code := d_keyword d; r_annot := d_annot d; r_body := None; r_headers := None; r_dir := d |}];
                      hi_pathvars := hi_pathvars h |}))
               end
             else COk c in
@@ -355,7 +355,7 @@ Section Build.
                 | [] => kerr d "responses is empty"
                 | _ => COk (with_cat b (upd_http c1 i (fun h =>
                          set_last_response h (fun r => {| r_code := r_code r; r_annot := r_annot r;
-                                                          r_body := Some {| b_format := format_of n; b_schema := s |}; r_headers := r_headers r |}))))
+                                                          r_body := Some {| b_format := format_of n; b_schema := s |}; r_headers := r_headers r; r_dir := r_dir r |}))))
                 end
               end
             end in
@@ -568,7 +568,7 @@ Section Build.
                                                | Some _ => kerr d "not a unique directive"
                                                | None => COk (with_cat b (upd_http c i (fun h =>
                                                    {| hi_annot := hi_annot h; hi_desc := hi_desc h; hi_tags := hi_tags h; hi_query := hi_query h;
-                                                      hi_request := Some {| q_body := q_body rq; q_headers := Some (schema_of d) |};
+                                                      hi_request := Some {| q_body := q_body rq; q_headers := Some (schema_of d); q_dir := q_dir rq |};
                                                       hi_responses := hi_responses h; hi_pathvars := hi_pathvars h |})))
                                                end
                                   end
@@ -584,7 +584,7 @@ Section Build.
                                   | r :: _ => match r_headers r with
                                               | Some _ => kerr d "not a unique directive"
                                               | None => COk (with_cat b (upd_http c i (fun h =>
-                                                  set_last_response h (fun r => {| r_code := r_code r; r_annot := r_annot r; r_body := r_body r; r_headers := Some (schema_of d) |}))))
+                                                  set_last_response h (fun r => {| r_code := r_code r; r_annot := r_annot r; r_body := r_body r; r_headers := Some (schema_of d); r_dir := r_dir r |}))))
                                               end
                                   end
                       end
@@ -781,11 +781,41 @@ Section Build.
                                 end) (c_inters c)).
 
   (* validateCatalog without the schema-content checks *)
+  (* first HTTP interaction (in order) whose request has no body / with a response without body *)
+  Fixpoint first_bad_request (l : list (iid * interaction)) : option directive :=
+    match l with
+    | [] => None
+    | (_, IHttp h) :: r =>
+      match hi_request h with
+      | Some rq => match q_body rq with None => Some (q_dir rq) | Some _ => first_bad_request r end
+      | None => first_bad_request r
+      end
+    | _ :: r => first_bad_request r
+    end.
+  Fixpoint first_bad_response (l : list (iid * interaction)) : option directive :=
+    match l with
+    | [] => None
+    | (_, IHttp h) :: r =>
+      match find (fun x => match r_body x with None => true | Some _ => false end) (hi_responses h) with
+      | Some x => Some (r_dir x)
+      | None => first_bad_response r
+      end
+    | _ :: r => first_bad_response r
+    end.
+
   Definition validate (c : catalog) : cres catalog :=
     match c_info c with
     | Some i => if beq (in_title i) [] && beq (in_version i) [] && (match in_desc i with None => true | Some _ => false end)
                 then kerr (in_dir i) "empty info" else COk c
     | None => COk c
+    end >>=c fun c =>
+    match first_bad_request (c_inters c) with
+    | Some d => kerr d "undefined request body"
+    | None =>
+      match first_bad_response (c_inters c) with
+      | Some d => kerr d "undefined response body"
+      | None => COk c
+      end
     end.
 
   (* compileCore (after expansion) + buildCatalog + path variables + validate.
